@@ -1499,7 +1499,7 @@ func init() {
 			"number selected x number failing x files x failing hook kind",
 		NumCases: func(tier string) int {
 			if tier == "thorough" {
-				return 4000
+				return 1400
 			}
 			return 280
 		},
